@@ -80,6 +80,12 @@ def main(tier, replay):
                rule="exhaustive strings over {00,01,7F,80,FE,FF} up to length %s + random around multiples of 8 + mutated encodings as malformed stream + all decoders on all comparable-varint tags + integers around sign/byte/varint boundaries ±2 and random; distinct = distinct (op,input,result) lines" % ("5" if tier == "quick" else "7"),
                samples=samples, traces_validated_against_impl=stats.get("cases", 0),
                input_distribution=cls, model_mismatches=len(mism), oracle_failures=len(pfails))
+    if tier == "thorough" and not proof_broken:
+        okc, outc = vlib.coqchk(["Verif.Codec.Props"])
+        cov["coqchk"] = "ok" if okc else "FAILED"
+        cov["coqchk_axioms"] = [l.strip() for l in outc.splitlines() if "axiom" in l.lower()][:10]
+        if not okc:
+            v.violation({"kind": "proof", "theorem_or_file": ["coqchk Verif.Codec.Props failed: " + outc[-400:]], "what": "independent checker rejected the compiled theories"}, has_input=False)
     rc = v.finish()
     vlib.write_evidence(PID, cov, t0, violations=len(v.violations), level="proof",
                         assumptions=["bytes are 0..255", "Go's bytes.Compare = lex_cmp (cross-checked by 'cmp' cases)"])
